@@ -76,7 +76,17 @@ Prune(G) ==
       R == Closure([r \in DOMAIN B |-> Refs(B[r]) \cap DOMAIN B], {G.rules[1].name})
   IN [rules |-> SelectSeq(G.rules, LAMBDA r : r.name \in R)]
 
+\* a run of captures, some of which may match the empty string, each followed by an action
+CapItem(s, cx) ==
+  LET a == ConsAtom(H(s, 1), [cx EXCEPT !.sugar = FALSE]) k == Pick(s, 2, 5) IN
+  SeqE(<<Cap(CASE k = 0 -> Plus(a) [] k = 1 -> Star(a) [] k = 2 -> Opt(a) [] k = 3 -> a [] k = 4 -> SeqE(<<a, Opt(a)>>)), Act(0)>> \o
+       (IF Pick(s, 3, 3) = 0 THEN <<ConsAtom(H(s, 4), cx)>> ELSE <<>>))
+CapSeq(s, cx) == LET n == 2 + Pick(s, 5, 3) IN SeqE([j \in 1..n |-> CapItem(H(s, 10 + j), cx)])
+
 GenGrammar(s, cx0, depth) ==
+  IF cx0.capnull /\ Pick(s, 33, 3) = 0
+  THEN NumberActions([rules |-> <<[name |-> "A", body |-> IF Pick(s, 34, 2) = 0 THEN CapSeq(s, cx0) ELSE AltE(<<CapSeq(H(s, 35), cx0), CapSeq(H(s, 36), cx0)>>)]>>])
+  ELSE
   LET n == 1 + Pick(s, 31, cx0.maxrules)
       rules == [i \in 1..n |-> [name |-> RuleName(i),
                                 body |-> GenE(H(s, 40 + i), IF i = 1 THEN depth ELSE depth - 1 + Pick(s, 50 + i, 2),
@@ -104,8 +114,8 @@ FirstForm(s, cx) ==
        [] k = 16 -> SeqE(<<Star(SeqE(<<a, Opt(b)>>)), c>>)
        [] k = 17 -> AltE(<<a, b, c>>)
 SwitchAlt(s, cx) ==
-  LET f == IF cx.self = 4 /\ Pick(s, 67, 3) = 0 THEN Ref(IF Pick(s, 68, 2) = 0 THEN "A" ELSE "B") ELSE FirstForm(s, cx)
-      k == Pick(s, 64, 8)
+  LET f == IF cx.self = 5 THEN Ref(IF Pick(s, 68, 2) = 0 THEN "A" ELSE "B") ELSE FirstForm(s, cx)
+      k == IF cx.self = 5 THEN 2 + 3 * Pick(s, 64, 2) ELSE IF cx.self = 2 /\ Pick(s, 69, 2) = 0 THEN 6 ELSE Pick(s, 64, 8)
   IN CASE k \in 0..1 -> f
        [] k = 2 -> SeqE(<<f, ConsAtom(H(s, 65), cx)>>)
        [] k = 3 -> SeqE(<<f, Opt(ConsAtom(H(s, 65), cx))>>)
@@ -133,7 +143,9 @@ GenSwitch(s, cx) ==
                   [name |-> "B", body |-> SwitchAlt(H(s, 90), [cx EXCEPT !.n = 1, !.self = 2])],
                   [name |-> "C", body |-> AltE(<<SwitchAlt(H(s, 91), [cx EXCEPT !.n = 1, !.self = 3]), SwitchAlt(H(s, 92), [cx EXCEPT !.n = 1, !.self = 3])>>)],
                   \* D is only reached after B or C consumed something, so its alternatives may begin with A or B again
-                  [name |-> "D", body |-> AltE([i \in 1..(3 + Pick(s, 93, 2)) |-> SwitchAlt(H(s, 94 + i), [cx EXCEPT !.n = 1, !.self = 4])])] >>
+                  \* one distinguished alternative of D starts with the rule that is still being analysed
+                  [name |-> "D", body |-> LET nd == 3 + Pick(s, 93, 2) rec == 1 + Pick(s, 99, nd) IN
+                                          AltE([i \in 1..nd |-> SwitchAlt(H(s, 94 + i), [cx EXCEPT !.n = 1, !.self = IF i = rec THEN 5 ELSE 4])])] >>
   IN NumberActions(Prune([rules |-> rules]))
 
 (* ---------- the "memo" shape: rules re-entered at the same offset after backtracking -------- *)
@@ -197,6 +209,34 @@ StringsOrdered(alpha, n) ==
                      Append(last[((k - 1) \div Len(alpha)) + 1], alpha[((k - 1) % Len(alpha)) + 1])]
        IN prev \o ext
 
+(* ---------- sentences: random derivations of the grammar read as a CFG ------------------- *)
+\* (ordered choice and lookahead are ignored; the result is merely a string that is likely to be
+\* accepted or to fail late, which is what exercises deep paths of the parser)
+RECURSIVE Sentence(_, _, _, _, _), SentenceL(_, _, _, _, _, _)
+SentenceL(B, es, i, s, fuel, alpha) ==
+  IF i > Len(es) THEN <<>> ELSE Sentence(B, es[i], H(s, i), fuel, alpha) \o SentenceL(B, es, i + 1, s, fuel, alpha)
+Sentence(B, e, s, fuel, alpha) ==
+  CASE e.op = "chr" -> <<e.c>>
+    [] e.op = "dot" -> <<alpha[1 + Pick(s, 1, Len(alpha))]>>
+    [] e.op = "rng" -> IF e.lo <= e.hi THEN <<e.lo + Pick(s, 2, e.hi - e.lo + 1)>> ELSE <<>>
+    [] e.op = "ref" -> IF fuel = 0 \/ e.r \notin DOMAIN B THEN <<>> ELSE Sentence(B, B[e.r], H(s, 3), fuel - 1, alpha)
+    [] e.op = "seq" -> SentenceL(B, e.es, 1, s, fuel, alpha)
+    [] e.op = "alt" -> Sentence(B, e.es[1 + Pick(s, 4, Len(e.es))], H(s, 5), fuel, alpha)
+    [] e.op = "opt" -> IF Pick(s, 6, 2) = 0 THEN <<>> ELSE Sentence(B, e.a, H(s, 7), fuel, alpha)
+    [] e.op = "star" -> IF fuel = 0 THEN <<>> ELSE SentenceL(B, [j \in 1..Pick(s, 8, 3) |-> e.a], 1, H(s, 9), fuel - 1, alpha)
+    [] e.op = "plus" -> IF fuel = 0 THEN Sentence(B, e.a, H(s, 9), 0, alpha) ELSE SentenceL(B, [j \in 1..(1 + Pick(s, 8, 2)) |-> e.a], 1, H(s, 9), fuel - 1, alpha)
+    [] e.op = "cap" -> Sentence(B, e.a, H(s, 10), fuel, alpha)
+    [] OTHER -> <<>>
+\* one sentence, possibly with one character replaced or dropped
+SentenceInput(B, first, s, alpha) ==
+  LET w == Sentence(B, Ref(first), s, 6, alpha)
+      k == Pick(s, 20, 4)
+      p == 1 + Pick(s, 21, IF Len(w) = 0 THEN 1 ELSE Len(w))
+  IN IF Len(w) = 0 \/ k \in 0..1 THEN w
+     ELSE IF k = 2 THEN [w EXCEPT ![p] = alpha[1 + Pick(s, 22, Len(alpha))]]
+     ELSE SubSeq(w, 1, p - 1) \o SubSeq(w, p + 1, Len(w))
+Trunc(w, n) == IF Len(w) > n THEN SubSeq(w, 1, n) ELSE w
+
 (* ---------- families ----------------------------------------------------- *)
 ABC == <<97, 98, 99>>
 Plain4 == <<"", "i", "s", "is">>
@@ -237,10 +277,14 @@ Fam ==
 
 Style(G) == [DefaultStyle EXCEPT !.act = IF Fam.act = "full" THEN "full" ELSE IF HasCapture(G) THEN "text" ELSE "none"]
 
-Inputs(s) ==
+NSENT == 24
+Inputs(s, G) ==
   LET base == StringsOrdered(Fam.alphaIn, Fam.exhaust)
       extra == [j \in 1..Fam.nextra |-> RndString(H(s, 300 + j), Fam.extraAlpha, Fam.exhaust + 1 + Pick(s, 400 + j, 3))]
-  IN [k \in 1..(Len(base) + Len(extra)) |-> [r |-> IF k <= Len(base) THEN base[k] ELSE extra[k - Len(base)]]]
+      B == BodyMap(Core(G))
+      sent == [j \in 1..NSENT |-> Trunc(SentenceInput(B, G.rules[1].name, H(s, 500 + j), Fam.extraAlpha), 12)]
+      all == base \o extra \o sent
+  IN [k \in 1..Len(all) |-> [r |-> all[k]]]
 
 \* byte-level inputs: concatenations of chunks (valid and invalid UTF-8)
 Chunks == << <<97>>, <<0>>, <<255>>, <<195, 169>>, <<195>>, <<240, 159, 152, 128>>, <<244, 143, 191, 191>>, <<237, 160, 128>>,
@@ -272,8 +316,8 @@ Candidate(n) == IF FAMILY = "switch" THEN GenSwitch(H(H(SEED, n), n \div 1499), 
 Scenario(n) ==
   LET G == Candidate(n) IN
   [id |-> n, family |-> FAMILY, seed |-> SEED, grammar |-> G, text |-> Render(G, Style(G)),
-   optsets |-> Fam.optsets, inputs |-> IF FAMILY = "bytes" THEN ByteInputs(H(SEED, n + 17)) ELSE Inputs(H(SEED, n + 17)),
-   plan |-> Plan(G), hist |-> Hists(H(SEED, n + 29), Len(Inputs(H(SEED, n + 17)))),
+   optsets |-> Fam.optsets, inputs |-> IF FAMILY = "bytes" THEN ByteInputs(H(SEED, n + 17)) ELSE Inputs(H(SEED, n + 17), G),
+   plan |-> Plan(G), hist |-> Hists(H(SEED, n + 29), Len(Inputs(H(SEED, n + 17), G))),
    collect |-> Fam.collect, allu |-> FAMILY = "reuse", norun |-> FALSE, actstyle |-> Style(G).act]
 
 IsWF(n) == WFB(BodyMap(Core(Candidate(n))))
